@@ -224,7 +224,7 @@ int main(int argc, char** argv) {
       catch (std::bad_alloc&) { EMIT("resourcelimit %s bad_alloc %s => 0\n", wl.c_str(), cur.c_str()); }   // (polynomial expansion of simplification levels 2-3: documented blow-up)
       catch (std::exception& e) { EMIT("harnesserror %s %s %s => 0\n", wl.c_str(), typeid(e).name(), cur.c_str()); }
     } while (0);
-    if (forked && !getenv("H_SYM_ONLY")) { fflush(stdout); _exit(0); }
+    if (forked && !getenv("H_SYM_ONLY")) { fflush(stdout); VH_EXIT(0); }
   }
   fprintf(stderr, "emitted %ld\n", emitted);
   return 0;
